@@ -398,6 +398,24 @@ def make_app(config=None, app=None):
         fl = [[k, one.raw_filename, one.file.read().decode('latin1')] for k, u in sorted(rq.files.items()) for one in (u if isinstance(u, list) else [u])]
         return json.dumps([name, sorted([k, v] for k, v in rq.forms.items()), fl])
 
+    # an application constant raised by every request that is not logged in (prepared once, with a multi-valued header and a
+    # cookie), and an error handler that adds what belongs to THIS request to the response
+    from ombott import HTTPError as _HE
+    login = _HE(401, 'login required')
+    login.headers.append('WWW-Authenticate', 'Basic realm="site"')
+    login.headers.append('WWW-Authenticate', 'Digest realm="site"')
+    login.set_cookie('sid', 'gone')
+
+    @app.route('/login401/<name>')
+    def login401(name):
+        raise login
+
+    @app.error(401)
+    def on401(err):
+        rs.headers.append('WWW-Authenticate', 'Bearer realm="%s"' % rq.path)
+        rs.set_cookie('seen', rq.path)
+        return app.default_error_handler(err)
+
     @app.route('/sf/<name>')
     def sf(name):
         # the module-level helper serving a file (full, ranged, HEAD): the same file for every client
@@ -544,6 +562,8 @@ def environ_for(kind, name):
                 '--B\r\nContent-Disposition: form-data; name="up"; filename="2-%s.txt"\r\n\r\ntwo\r\n--B--\r\n' % (name, name, name, name)).encode()
         env.update(PATH_INFO='/mpf/' + name, REQUEST_METHOD='POST', CONTENT_LENGTH=str(len(data)), CONTENT_TYPE='multipart/form-data; boundary=B')
         env['wsgi.input'] = io.BytesIO(data)
+    elif kind == 'login401':
+        env['PATH_INFO'] = '/login401/' + name
     elif kind in ('sfile', 'sfile_range', 'sfile_head'):
         env['PATH_INFO'] = '/sf/' + name
         if kind == 'sfile_range':
